@@ -373,6 +373,40 @@ impl<'a> LuaParser<'a> {
     }
 }
 
+#[cfg(feature = "verif")]
+impl<'a> LuaParser<'a> {
+    /// verif hook: the lexer tokens, the mark/eat event stream and the final `mark_level` of a
+    /// parse, i.e. everything `parse` computes before the tree is built.
+    pub fn verif_parse_events(
+        text: &'a str,
+        config: ParserConfig,
+    ) -> (Vec<LuaTokenData>, Vec<MarkEvent>, usize) {
+        let mut errors: Vec<LuaParseError> = Vec::new();
+        let tokens = {
+            let mut lexer =
+                LuaLexer::new(Reader::new(text), config.lexer_config(), Some(&mut errors));
+            lexer.tokenize()
+        };
+        let lexer_tokens = tokens.clone();
+        let mut parser = LuaParser {
+            text,
+            events: Vec::new(),
+            tokens,
+            token_index: 0,
+            current_token: LuaTokenKind::None,
+            parse_config: config,
+            mark_level: 0,
+            errors: &mut errors,
+            ternary_depth: 0,
+            paren_depth: 0,
+            ternary_paren_depth: 0,
+        };
+        parse_chunk(&mut parser);
+        let mark_level = parser.mark_level;
+        (lexer_tokens, parser.events, mark_level)
+    }
+}
+
 fn is_trivia_kind(kind: LuaTokenKind) -> bool {
     matches!(
         kind,
